@@ -128,6 +128,11 @@ impl FromStr for Fen {
         #[allow(clippy::unwrap_used)]
         Self::validate_ranks(group_to_slice(1).map(|range| &fen[range.start..range.end]).unwrap())?;
 
+        let clock_is_u32 = |match_index| group_to_slice(match_index).map_or(true, |range: Range<usize>| fen[range].parse::<u32>().is_ok());
+        if !clock_is_u32(5) || !clock_is_u32(6) {
+            return Err(InvalidCapture(fen));
+        }
+
         Ok(
             #[allow(clippy::unwrap_used)]
             Self {
